@@ -37,6 +37,9 @@ def run(rep, tier, seed, replay):
                 "crate's compiled patterns; non-trivial = built and the partition is a real split (non-empty prefix)")
     exprs = lib.inputs(rep, "C08", tier, seed, 2500, 30000, replay, lits=["a", "b", "ab", "A", "x.y", "..", ".", "é", "c", "1"])
     if replay is None:
+        import gen as _gfc
+        exprs += [e for e in _gfc.flag_class_family() if e not in set(exprs)]
+    if replay is None:
         exprs += [e for e in ["a/b/*.rs", "src/{x,y}/**", "/a/*", "</a:1,>", "(?i)1/b*", "[/]/a/*", "a/b", "/", "/**", "a/**/b", "{a}/b/*", "<a/:2>*", "a/{b}/c*", "(?i)a/b*", "a/(?i)b/c*", "../*", "./a/*", "a/./*", "/**/a", "a/[b]/c*", "(?i)1/2/*"] if e not in set(exprs)]
     if replay is None:
         pres = ["a", "a/b", "x/a", "(?i)1", "{a}", "<a:2>"]
